@@ -340,6 +340,18 @@ def run_case(case):
                         j = int(np.argmax(np.abs(r)))
                         add("residual_form", "terms %s, alpha %s, dt=%g: alpha*(new-old)/dt + A*new - b = %.3g in interior cell #%d (scale %.3g, cond %.3g)"
                             % ("+".join(ts), akind, dt, r[j], j, float(np.max(sc)), kap), terms=list(ts), dt=dt)
+                    # (i') the same step from an old field given WITH ghost cells that hold placeholders (NaN, inf): a backward-Euler
+                    #      step uses the interior of the old field only
+                    if dt in (DTS[3], DTS[8]):
+                        for pad in (np.nan, np.inf):
+                            fullold = np.full(g.fshape, pad)
+                            fullold[inner] = old0
+                            phin = pf.CellVariable(g.mesh, fullold, make_bc(g, setup))
+                            pf.solvePDE(phin, [pf.transientTerm(phin, dt, alpha)] + Ms + vs)
+                            res["evals"] += 1
+                            if not np.allclose(np.asarray(phin.value), np.asarray(ret.value), rtol=64 * EPS * kap, atol=64 * EPS * kap * max(1.0, float(np.max(np.abs(np.asarray(ret.value))))), equal_nan=False):
+                                add("placeholder_ghosts", "terms %s, alpha %s, dt=%g: the step from an old field whose ghost cells hold %r differs from the step from the same interior values"
+                                    % ("+".join(ts), akind, dt, pad), terms=list(ts), dt=dt)
                     # (iii) limits
                     amax = float(np.max(np.asarray(alpha.value))) if isinstance(alpha, pf.CellVariable) else float(alpha)
                     amin = float(np.min(np.asarray(alpha.value))) if isinstance(alpha, pf.CellVariable) else float(alpha)
